@@ -98,6 +98,11 @@ def rand_param(rng, F, mag=1.0, allow_const=True):
         cst = int(rng.integers(0, 3))
         return Param("const", np.full(F, CONST[cst], dtype=complex), cst)
     v = (rng.standard_normal() + 1j * rng.standard_normal()) * mag * 0.6
+    if rng.random() < 0.12:
+        # ideal offset shorts / opens and quarter-wave lines: the real part
+        # is exactly 0, 1 or -1, the imaginary part is not zero
+        v = complex(float(rng.choice([0.0, 1.0, -1.0])),
+                    float(rng.choice([1.0, -1.0, 0.1, -0.5, 0.3])))
     if k < 4 or F == 1:
         return Param("scalar", np.full(F, v, dtype=complex))
     vals = v + 0.2 * mag * (rng.standard_normal(F) +
